@@ -31,13 +31,13 @@ W = [("i16", 16), ("i32", 32), ("i64", 64), ("i128", 128)]
 UNIT = dict(
     name="zigzag",
     items=[enc_item(n, b) for n, b in W] + [dec_item(n, b) for n, b in W],
-    trailer="".join("""
+    trailer_parts=[(["zig_zag_%(n)s" % {"n": n}, "de_zig_zag_%(n)s" % {"n": n}], """
 // C01: decoding the zig-zag of n gives n back, for every n (composition of the two contracts above)
 fn roundtrip_%(n)s(n: %(n)s) -> (r: %(n)s)
     ensures r == n
 {
     de_zig_zag_%(n)s(zig_zag_%(n)s(n))
 }
-""" % {"n": n} for n, b in W),
+""" % {"n": n}) for n, b in W],
     trailer_obls=["C01.V.zz.roundtrip"],
 )
